@@ -82,7 +82,22 @@ type script struct {
 	Status  int
 	Headers [][2]string // name, value (repeated names allowed)
 	Cookies [][2]string
+	RC      []rcookie // cookies with attributes (response exposure cases)
 	DelayMs int
+}
+
+// a cookie of a response: the value may be empty ("legacy=; Max-Age=0" clears a
+// cookie, "flag=; Secure" is a flag)
+type rcookie struct {
+	Name, Value      string
+	MaxAge           int // 0: no Max-Age attribute; -1: "Max-Age=0"
+	Secure, HTTPOnly bool
+	Path             string
+}
+
+// what is compared of a cookie besides its name
+func (c rcookie) payload() string {
+	return fmt.Sprintf("%s|%d|%v|%v|%s", c.Value, c.MaxAge, c.Secure, c.HTTPOnly, c.Path)
 }
 
 type server struct {
@@ -126,6 +141,9 @@ func (s *server) handle(w http.ResponseWriter, r *http.Request) {
 	}
 	for _, c := range sc.Cookies {
 		http.SetCookie(w, &http.Cookie{Name: c[0], Value: c[1]})
+	}
+	for _, c := range sc.RC {
+		http.SetCookie(w, &http.Cookie{Name: c.Name, Value: c.Value, MaxAge: c.MaxAge, Secure: c.Secure, HttpOnly: c.HTTPOnly, Path: c.Path})
 	}
 	w.Header().Set("Content-Type", "text/html; charset=utf-8")
 	w.WriteHeader(sc.Status)
@@ -253,6 +271,32 @@ func genCookies(rng *rand.Rand) [][2]string {
 	return out
 }
 
+func genRespCookies(rng *rand.Rand) []rcookie {
+	n := rng.Intn(4)
+	perm := rng.Perm(len(cookieNames))
+	var out []rcookie
+	for _, i := range perm[:n] {
+		c := rcookie{Name: cookieNames[i], Value: cookieVals[rng.Intn(len(cookieVals))]}
+		switch rng.Intn(6) {
+		case 0: // the usual way of clearing a cookie
+			c.Value, c.MaxAge = "", -1
+		case 1: // a flag
+			c.Value = ""
+			c.Secure = rng.Intn(2) == 0
+		case 2:
+			c.MaxAge = []int{-1, 60, 3600}[rng.Intn(3)]
+		}
+		if rng.Intn(3) == 0 {
+			c.HTTPOnly = true
+		}
+		if rng.Intn(3) == 0 {
+			c.Path = []string{"/", "/r"}[rng.Intn(2)]
+		}
+		out = append(out, c)
+	}
+	return out
+}
+
 func sortPairs(p [][2]string) [][2]string {
 	out := append([][2]string{}, p...)
 	sort.Slice(out, func(i, j int) bool { return out[i][0] < out[j][0] })
@@ -267,12 +311,12 @@ func runFQL(prog *runtime.Program, drv *httpdrv.Driver, ctx context.Context, url
 
 func work(out, tier string, seed int64) {
 	rng := rand.New(rand.NewSource(seed))
-	nReq, nSets, nResp := 220, 14, 40
+	nReq, nSets, nResp, nHist := 220, 14, 60, 80
 	if tier == "thorough" {
-		nReq, nSets, nResp = 3000, 40, 400
+		nReq, nSets, nResp, nHist = 3000, 40, 600, 800
 	}
 	m := NewMeta("C19", tier, seed)
-	m.Rule = "one evaluation = one request issued through DOCUMENT(); a request case is non-trivial when at least one header, cookie or user agent is configured; distinct = distinct configuration texts (request cases), distinct (rule set, status) pairs with a rule for that status or a 2xx status (status cases), distinct scripts (response cases)"
+	m.Rule = "one evaluation = one request issued through DOCUMENT(); a request case is non-trivial when at least one header, cookie or user agent is configured; distinct = distinct configuration texts (request cases), distinct (rule set, status) pairs with a rule for that status or a 2xx status (status cases), distinct scripts (response cases), distinct histories (driver configuration and the parameters of its 2-4 requests)"
 	srv := newServer()
 	defer srv.srv.Close()
 	comp := compiler.New()
@@ -554,7 +598,16 @@ func work(out, tier string, seed int64) {
 				hv[n] = append(hv[n], v)
 			}
 		}
-		sc.Cookies = genCookies(rng)
+		sc.RC = genRespCookies(rng)
+		var scPairs [][2]string
+		for _, c := range sc.RC {
+			scPairs = append(scPairs, [2]string{c.Name, c.payload()})
+			if c.Value == "" {
+				m.Count("response:cookie-with-empty-value")
+			} else {
+				m.Count("response:cookie-with-value")
+			}
+		}
 		id := fmt.Sprintf("p%d", i)
 		url := srv.set(id, sc)
 		drv := httpdrv.NewDriver(httpdrv.WithMaxRetries(1), httpdrv.WithAllowedHTTPCodes([]int{404, 500, 302}))
@@ -580,7 +633,13 @@ func work(out, tier string, seed int64) {
 				obsH[k][1] = got.All[n]
 			}
 			for n, c := range got.Cookies {
-				obsC = append(obsC, [2]string{n, fmt.Sprint(c["value"])})
+				rc := rcookie{Name: n, Value: fmt.Sprint(c["value"]), Path: fmt.Sprint(c["path"])}
+				if f, ok := c["max_age"].(float64); ok {
+					rc.MaxAge = int(f)
+				}
+				rc.Secure, _ = c["secure"].(bool)
+				rc.HTTPOnly, _ = c["http_only"].(bool)
+				obsC = append(obsC, [2]string{n, rc.payload()})
 			}
 			obsC = sortPairs(obsC)
 		}
@@ -594,7 +653,7 @@ func work(out, tier string, seed int64) {
 		if i == nResp-1 {
 			sep = ""
 		}
-		fmt.Fprintf(w, " mkRC (mkResp %d (hs [%s]) (ck %s)) RNAMES %d %s %s%s\n", sc.Status, strings.Join(hs, ";"), cpairs(sc.Cookies, false),
+		fmt.Fprintf(w, " mkRC (mkResp %d (hs [%s]) (ck %s)) RNAMES (%d) %s %s%s\n", sc.Status, strings.Join(hs, ";"), cpairs(scPairs, false),
 			obsStatus, cpairs(obsH, true), cpairs(obsC, true), sep)
 		distinct[sha1.Sum([]byte(fmt.Sprintf("P%v", sc)))] = struct{}{}
 		m.Count(fmt.Sprintf("response:status-%d", sc.Status))
@@ -603,6 +662,143 @@ func work(out, tier string, seed int64) {
 			e = rerr.Error()
 		}
 		pIdx = append(pIdx, map[string]interface{}{"script": sc, "impl": string(outb), "error": e})
+	}
+	fmt.Fprintln(w, "].")
+
+	// ---- histories: several documents through ONE driver instance; every request
+	// must carry exactly the driver's defaults merged with its own parameters,
+	// whatever the earlier documents asked for
+	var hIdx []interface{}
+	fmt.Fprintln(w, "Definition H : list histcase := [")
+	for i := 0; i < nHist; i++ {
+		var dopts []dopt
+		opts := []httpdrv.Option{httpdrv.WithMaxRetries(1)}
+		perm := rng.Perm(len(baseNames))
+		for _, bi := range perm[:1+rng.Intn(4)] { // at least one default header
+			name, _ := variant(rng, baseNames[bi])
+			d := dopt{Set: rng.Intn(5) == 0, Name: name, Vals: values(rng)}
+			if d.Set {
+				d.Vals = d.Vals[:1]
+				hh := drivers.NewHTTPHeaders()
+				hh.Set(d.Name, d.Vals[0])
+				opts = append(opts, httpdrv.WithHeaders(hh))
+			} else {
+				opts = append(opts, httpdrv.WithHeader(d.Name, d.Vals))
+			}
+			dopts = append(dopts, d)
+		}
+		dcook := genCookies(rng)
+		for _, c := range dcook {
+			opts = append(opts, httpdrv.WithCookie(drivers.HTTPCookie{Name: c[0], Value: c[1]}))
+		}
+		dua := uaPool[rng.Intn(len(uaPool))]
+		if dua != "" {
+			opts = append(opts, httpdrv.WithUserAgent(dua))
+		}
+		drv := httpdrv.NewDriver(opts...)
+		ds := make([]string, len(dopts))
+		for k, d := range dopts {
+			if d.Set {
+				ds[k] = "ds " + cs(d.Name) + " " + cs(d.Vals[0])
+			} else {
+				ds[k] = "dh " + cs(d.Name) + " " + csl(d.Vals)
+			}
+		}
+		nr := 2 + rng.Intn(3)
+		var rows []string
+		var reqIdx []interface{}
+		histText := fmt.Sprintf("%v|%v|%s", ds, dcook, dua)
+		for k := 0; k < nr; k++ {
+			var qh []qhdr
+			p := map[string]interface{}{}
+			hp := map[string]interface{}{}
+			nh := rng.Intn(5)
+			if k > 0 && rng.Intn(3) == 0 {
+				nh = 0 // a later document that configures no header of its own
+			}
+			perm = rng.Perm(len(baseNames))
+			for _, bi := range perm[:nh] {
+				name, _ := variant(rng, baseNames[bi])
+				h := qhdr{Name: name, Vals: values(rng), Arr: rng.Intn(2) == 0}
+				if h.Arr {
+					arr := make([]interface{}, len(h.Vals))
+					for x, v := range h.Vals {
+						arr[x] = v
+					}
+					hp[name] = arr
+				} else {
+					h.Vals = h.Vals[:1]
+					hp[name] = h.Vals[0]
+				}
+				qh = append(qh, h)
+			}
+			if len(qh) > 0 || rng.Intn(3) == 0 {
+				p["headers"] = hp
+			}
+			pcook := genCookies(rng)
+			if k > 0 && rng.Intn(3) == 0 {
+				pcook = nil
+			}
+			if len(pcook) > 0 || rng.Intn(3) == 0 {
+				arr := make([]interface{}, len(pcook))
+				for x, c := range pcook {
+					arr[x] = map[string]interface{}{"name": c[0], "value": c[1]}
+				}
+				p["cookies"] = arr
+			}
+			pua := uaPool[rng.Intn(len(uaPool))]
+			if pua != "" {
+				p["userAgent"] = pua
+			}
+			id := fmt.Sprintf("h%d-%d", i, k)
+			url := srv.set(id, script{Status: 200})
+			_, rerr := runFQL(progStatus, drv, context.Background(), url, p)
+			m.Evaluations++
+			recs := srv.get(id)
+			obsH := make([]string, len(lookNames))
+			var obsC [][2]string
+			obsUA := ""
+			raw := map[string]interface{}{}
+			if len(recs) > 0 {
+				r := recs[0]
+				for x, n := range lookNames {
+					obsH[x] = cbl(r.Header[n])
+				}
+				obsC = sortPairs(r.Cookies)
+				obsUA = r.UA
+				if strings.HasPrefix(obsUA, "Go-http-client") {
+					obsUA = ""
+				}
+				raw["received"] = r.Header
+			} else {
+				for x := range lookNames {
+					obsH[x] = "[]"
+				}
+			}
+			if rerr != nil {
+				raw["error"] = rerr.Error()
+			}
+			qs := make([]string, len(qh))
+			for x, h := range qh {
+				if h.Arr {
+					qs[x] = "many " + cs(h.Name) + " " + csl(h.Vals)
+				} else {
+					qs[x] = "one " + cs(h.Name) + " " + cs(h.Vals[0])
+				}
+			}
+			rows = append(rows, fmt.Sprintf("   mkHR [%s] (ck %s) (b %s) [%s] %s (%s) %d%%N", strings.Join(qs, ";"), cpairs(pcook, false), cs(pua),
+				strings.Join(obsH, ";"), cpairs(obsC, true), cb(obsUA), len(recs)))
+			histText += fmt.Sprintf("|%v|%v|%s", qs, pcook, pua)
+			reqIdx = append(reqIdx, map[string]interface{}{"query_headers": qh, "query_cookies": pcook, "query_ua": pua, "raw": raw, "requests": len(recs)})
+		}
+		sep := ";"
+		if i == nHist-1 {
+			sep = ""
+		}
+		fmt.Fprintf(w, " mkHist [%s] (ck %s) (b %s) NAMES [\n%s\n ]%s\n", strings.Join(ds, ";"), cpairs(dcook, false), cs(dua), strings.Join(rows, ";\n"), sep)
+		distinct[sha1.Sum([]byte("H"+histText))] = struct{}{}
+		m.Count(fmt.Sprintf("history:requests-through-one-driver:%d", nr))
+		hIdx = append(hIdx, map[string]interface{}{"driver_headers": dopts, "driver_cookies": dcook, "driver_ua": dua, "requests": reqIdx})
 	}
 	fmt.Fprintln(w, "].")
 
@@ -690,9 +886,9 @@ func work(out, tier string, seed int64) {
 		if k == 0 {
 			bw.WriteString(w.String())
 		} else {
-			bw.WriteString("Definition S : list stcase := [].\nDefinition P : list respcase := [].\nDefinition C : list cancase := [].\n")
+			bw.WriteString("Definition S : list stcase := [].\nDefinition P : list respcase := [].\nDefinition C : list cancase := [].\nDefinition H : list histcase := [].\n")
 		}
-		fmt.Fprintf(bw, "Definition M := Eval vm_compute in mismatches %d%%N R S P C.\nPrint M.\n", k*perFile)
+		fmt.Fprintf(bw, "Definition M := Eval vm_compute in mismatches %d%%N R S P C H.\nPrint M.\n", k*perFile)
 		Must(bw.Flush())
 		Must(f.Close())
 		m.Files = append(m.Files, name)
@@ -702,6 +898,7 @@ func work(out, tier string, seed int64) {
 	m.Index["S"] = sIdx
 	m.Index["P"] = pIdx
 	m.Index["C"] = cIdx
+	m.Index["H"] = hIdx
 	m.Index["names"] = lookNames
 	m.Index["resp_names"] = respNames
 	m.Write(out)
